@@ -15,11 +15,11 @@ PROP = "C02"
 DRIVER = os.path.join("Driver", "C02.lean")
 DRIVER_MODULES = ["PsutilModel.Model.C02Gen", "PsutilModel.Spec.C01", "PsutilModel.Model.C01Driver"]
 NEEDS_EXT = True
-TRUSTED = c01.TRUSTED[:3]
+TRUSTED = c01.TRUSTED[:4]
 ASSUMPTIONS = c01.ASSUMPTIONS
 MANIFEST = {
-    "level_text": "Machine-checked Lean 4 proof over the identity-machine model shared with C01 (Process._init/_get_ident/create_time/__eq__/__hash__/is_running + _pslinux boot_time/BOOT_TIME/create_time) and a simulated kernel whose published boot time may change: for ALL histories of spawn/exit/reap/PID-reuse/tick/clock-step events and interleaved psutil calls (boot_time(), process_iter(), create_time(), is_running(), signals, setters, object creation at any point) with btime != 0, `a == b` holds iff the two objects have the same PID and were built for the same process start (C02_eq_iff_same_incarnation), equal objects hash alike and the hash never changes (C02_hash_congr, C02_answers_stable), is_running() is True iff the object's own incarnation is still in the process table, zombie included (C02_isRunning_iff_listed), and once False it stays False (C02_isRunning_sticky); the ghost field the specification uses is the owner of the PID at construction (C02_ghost_meaning). The Process objects built and yielded by process_iter() are objects of the same histories (the model's process_iter keeps the pid->object cache and `_pids_reused`, builds a Process for every listed PID that is not cached exactly as Process(pid) does, appends it to the object list and returns the (pid, index) handles it yields), so all of the above quantifies over them and over pairs mixing both kinds; in addition a sweep never alters an existing object (C02_iter_keeps_objects), a yielded handle is a cache entry as it was or a fresh object built for the current owner of the PID (C02_iter_ghost_meaning) and always names an object of that PID (C02_iter_handles_valid); oneshot() entry/exit are explicit calls of the histories and change nothing (C02_oneshot_identity). As an extra model-correspondence observable (outside the property's statement, no spec-level judgement) the status word of str(p)/repr(p) is transcribed as it is and compared with the implementation; about the transcription it is proved that 'terminated' shown implies the object's process is gone and that a listed incarnation's own state is shown (C02_status_terminated_sound, C02_status_listed), and characterised that the converse does not hold because __str__ deliberately has no side effects (C02_status_stale_counterexample). Tie: ast-extracted facts + differential run of real psutil.Process objects over a fake procfs.",
-    "level_note": "Trusted: Lean kernel + {propext, Classical.choice, Quot.sound}; the translator; the correspondence harness; the simulated kernel/fake procfs; atomic calls; create times as exact integers (doubles in the implementation); hypothesis btime != 0; OpenBSD/NetBSD zombie branch of __eq__ not modelled (Linux layer).",
+    "level_text": "Machine-checked Lean 4 proof over the identity-machine model shared with C01 (Process._init/_get_ident/create_time/__eq__/__hash__/is_running + _pslinux boot_time/BOOT_TIME/create_time) and a simulated kernel whose published boot time may change: for ALL histories of spawn/exit/reap/PID-reuse/tick/clock-step events and interleaved psutil calls (boot_time(), process_iter(), create_time(), is_running(), signals, setters, object creation at any point) with btime != 0, `a == b` holds iff the two objects have the same PID and were built for the same process start (C02_eq_iff_same_incarnation), equal objects hash alike and the hash never changes (C02_hash_congr, C02_answers_stable), is_running() is True iff the object's own incarnation is still in the process table, zombie included (C02_isRunning_iff_listed), and once False it stays False (C02_isRunning_sticky); the ghost field the specification uses is the owner of the PID at construction (C02_ghost_meaning). The Process objects built and yielded by process_iter() are objects of the same histories (the model's process_iter keeps the pid->object cache and `_pids_reused`, builds a Process for every listed PID that is not cached exactly as Process(pid) does, appends it to the object list and returns the (pid, index) handles it yields), so all of the above quantifies over them and over pairs mixing both kinds; in addition a sweep never alters an existing object (C02_iter_keeps_objects), a yielded handle is a cache entry as it was or a fresh object built for the current owner of the PID (C02_iter_ghost_meaning) and always names an object of that PID (C02_iter_handles_valid); oneshot() entry/exit are explicit calls of the histories and change nothing (C02_oneshot_identity). The histories also contain permission changes (the kernel refusing a PID with EPERM/EACCES): a refused signal or setter raises AccessDenied and sets no sticky flag, so every answer above is unaffected. Outside the property's quantifier (characterisation, not a finding): when /proc/pid/stat cannot be opened (hidepid mounts, LSMs) Process._init keeps `_ident = (pid, None)`; the model transcribes this and is compared with the real code on such histories; proved for any state: two objects with unknown start are equal iff they have the same PID and never equal an object with a known start (C02_eq_unknown_start), is_running() of an object with unknown start is True iff the PID is listed and its current holder is unreadable too (C02_isRunning_unknown_start), Process(pid) then yields exactly that object without touching BOOT_TIME (C02_unknown_start_meaning); consequently the statements of C02_eq_iff_same_incarnation / C02_isRunning_iff_listed do not extend to histories with unreadable stat files (C02_unknown_start_counterexample, witnesses replayed on the real code). As an extra model-correspondence observable (outside the property's statement, no spec-level judgement) the status word of str(p)/repr(p) is transcribed as it is and compared with the implementation; about the transcription it is proved that 'terminated' shown implies the object's process is gone and that a listed incarnation's own state is shown (C02_status_terminated_sound, C02_status_listed), and characterised that the converse does not hold because __str__ deliberately has no side effects (C02_status_stale_counterexample). Tie: ast-extracted facts + differential run of real psutil.Process objects over a fake procfs.",
+    "level_note": "Trusted: Lean kernel + {propext, Classical.choice, Quot.sound}; the translator; the correspondence harness; the simulated kernel/fake procfs; atomic calls; create times as exact integers (doubles in the implementation); hypotheses btime != 0 and /proc/pid/stat always readable (what happens otherwise is characterised, not claimed); OpenBSD/NetBSD zombie branch of __eq__ not modelled (Linux layer).",
     "technique": "Lean 4 invariant proof by induction over event histories (ghost incarnation ids, one frozen boot time) + translator-fed proof obligation + differential correspondence on generated and exhaustively enumerated short histories",
     "design_ref": "DESIGN.md §5 C02",
 }
